@@ -127,6 +127,7 @@ func c20Delay(r *tr.Run) (n int) {
 		}
 	}
 	genDelay := 11 * time.Second
+	perMsg := false                                                                        // the generator of the publisher under test derives the delay from the message (11 s + its index)
 	ctxVariants := []string{"for", "until-future", "until-past", "for-zero", "zero-value"} // zero-value: delay.Delay{} -- a delay in the context all the same
 	ctxDur := map[string]time.Duration{"for": 7 * time.Second, "until-future": 90 * time.Minute, "until-past": -3 * time.Second, "for-zero": 0, "zero-value": 0}
 	// build makes the messages of a batch; for a message with a context delay it also notes the stamp that delay stands for
@@ -194,7 +195,7 @@ func c20Delay(r *tr.Run) (n int) {
 				switch {
 				case batch[i] == "meta" && d == 5*time.Minute:
 					f = "meta"
-				case d == genDelay && batch[i] == "none":
+				case batch[i] == "none" && (!perMsg && d == genDelay || perMsg && d == genDelay+time.Duration(i)*time.Second):
 					f = "gen"
 				case batch[i] == "ctx":
 					// For: exactly the configured duration; Until: the duration left when Until() was called
@@ -253,7 +254,7 @@ func c20Delay(r *tr.Run) (n int) {
 			pubAndJudge(lo.dp, lo.ip, lo.msgs, lo.stamps, lo.batch, lo.ctxKind, map[string]any{"gen": "none", "allow": true, "inner": "accept"})
 		}
 	}()
-	for _, gen := range []string{"ok", "fail", "none"} {
+	for _, gen := range []string{"ok", "fail", "none", "permsg"} { // permsg: a generator that looks at the message (for the specification: a generator that works)
 		for _, allow := range []bool{false, true} {
 			for _, inner := range []string{"accept", "error"} {
 				for bi, batch := range batches {
@@ -268,6 +269,12 @@ func c20Delay(r *tr.Run) (n int) {
 					switch gen {
 					case "ok":
 						cfg.DefaultDelayGenerator = func(delay.DefaultDelayGeneratorParams) (delay.Delay, error) { return delay.For(genDelay), nil }
+					case "permsg":
+						cfg.DefaultDelayGenerator = func(p delay.DefaultDelayGeneratorParams) (delay.Delay, error) {
+							var k int
+							fmt.Sscanf(p.Message.UUID, "d%d", &k)
+							return delay.For(genDelay + time.Duration(k)*time.Second), nil
+						}
 					case "fail":
 						cfg.DefaultDelayGenerator = func(delay.DefaultDelayGeneratorParams) (delay.Delay, error) {
 							return delay.Delay{}, errors.New("generator failure")
@@ -280,7 +287,13 @@ func c20Delay(r *tr.Run) (n int) {
 					}
 					ctxKind := ctxVariants[bi%len(ctxVariants)]
 					msgs, stamps := build(batch, ctxKind)
-					pubAndJudge(dp, ip, msgs, stamps, batch, ctxKind, map[string]any{"gen": gen, "allow": allow, "inner": inner})
+					specGen := gen
+					perMsg = gen == "permsg"
+					if perMsg {
+						specGen = "ok"
+					}
+					pubAndJudge(dp, ip, msgs, stamps, batch, ctxKind, map[string]any{"gen": specGen, "allow": allow, "inner": inner})
+					perMsg = false
 					n++
 				}
 			}
